@@ -69,7 +69,12 @@ func reflectMainPrePatch(path string) (string, error) {
 // reflectMainPostPatch populates the name mapping with the final obfuscated->real name
 // mappings after all packages have been analyzed.
 func reflectMainPostPatch(file []byte, lpkg *listedPackage, pkg pkgCache) []byte {
-	obfVarName := hashWithPackage(lpkg, "_originalNamePairs")
+	// The injected code is printed with the rest of the main package,
+	// so the variable only has an obfuscated name if the package is obfuscated.
+	obfVarName := "_originalNamePairs"
+	if lpkg.ToObfuscate {
+		obfVarName = hashWithPackage(lpkg, obfVarName)
+	}
 	namePairs := fmt.Appendf(nil, "%s = []string{", obfVarName)
 
 	keys := slices.Sorted(maps.Keys(pkg.ReflectObjectNames))
